@@ -49,7 +49,7 @@ ASSUMPTIONS = ['statsmodels GLM/GEE fits and predictions are deterministic funct
                'matplotlib (Agg) axes expose the plotted data through Axes.lines']
 
 COV = ['L1', 'L2', 'L1 + L2', 'L1 + L3', 'L1 + L2 + L3', 'L2 + L3 + L1:L3']
-BOUNDS = [False, False, False, 0.05, 0.15, [0.1, 0.85]]
+BOUNDS = [False, False, False, 0.1, 0.3, [0.35, 0.6]]     # strong enough to bite on most data sets
 
 
 # ------------------------------------------------------------------------------------------ snapshots
@@ -426,7 +426,7 @@ def mk_specs():
     def g_out_t(rng, cell):
         a, f = g_out_a(rng, cell)
         if not cell['ybin'] and rng.uniform() < 0.3:
-            a['bound'] = pick(rng, [0.01, 0.05])
+            a['bound'] = pick(rng, [0.05, 0.2])
         return a, f
 
     def with_custom(name):
@@ -487,7 +487,7 @@ def mk_specs():
         if not cell['ybin']:
             a['continuous_distribution'] = pick(rng, ['gaussian', 'poisson'])
             if rng.uniform() < 0.3:
-                a['bound'] = 0.02
+                a['bound'] = pick(rng, [0.05, 0.2])
         return a, False
 
     def g_sfit(rng, cell):
@@ -608,14 +608,14 @@ def mk_specs():
             stab = bool(rng.uniform() < 0.6)
             a = {'model_denominator': pick(rng, SEL), 'model_numerator': '1', 'stabilized': stab, 'print_results': False}
             if bound:
-                a['bound'] = pick(rng, [None, None, 0.1, [0.15, 0.9]])
+                a['bound'] = pick(rng, [None, None, 0.3, [0.4, 0.7]])
             return a, False
         return g
 
     def g_gtm(rng, cell):
         stab = bool(rng.uniform() < 0.6)
         return {'model_denominator': pick(rng, ['L1', 'L2', 'L1 + L2']), 'model_numerator': '1', 'stabilized': stab,
-                'bound': pick(rng, [None, None, 0.1]), 'print_results': False}, False
+                'bound': pick(rng, [None, None, 0.35]), 'print_results': False}, False
 
     def sel(rng, c, n):
         return gen_select(rng, n, ybin=c.get('otype', 'binary') == 'binary')
